@@ -88,6 +88,20 @@ Theorem C08_survivors_count : forall (o n : skel) (total : N) (ps : list patch),
   (embeds o n -> sumN (map p_sz ps) = size o).
 Proof. exact survivors_count. Qed.
 
+(* identity form for edits that remove / add whole children of the root (the "voices" scenario of C07):
+   if the new children are a subsequence of the old children (by shape equality), every new child that has at least one
+   cell is copied WHOLE from an old child of identical shape (the pair_score bonus makes an identical sibling outweigh a
+   partial match carrying the same number of cells); symmetrically when the old children are a subsequence of the new ones.
+   `subseq l1 l2` : l1 is a subsequence of l2 (Inductive: sub_nil, sub_skip, sub_keep with Leibniz-equal elements).
+   `child_off cs i := sumN (map size (firstn i cs))`. *)
+Theorem C08_survivors_whole : forall (os ns : list skel) (total : N) (ps : list patch),
+  plan (FnCall os) (FnCall ns) = Some (total, ps) ->
+  (subseq ns os -> forall j c, nth_error ns j = Some c -> 0 < count_cells c ->
+      exists i, nth_error os i = Some c /\ In (mkPatch (child_off os i) (child_off ns j) (size c)) ps) /\
+  (subseq os ns -> forall i c, nth_error os i = Some c -> 0 < count_cells c ->
+      exists j, nth_error ns j = Some c /\ In (mkPatch (child_off os i) (child_off ns j) (size c)) ps).
+Proof. exact survivors_whole. Qed.
+
 (* the former F1 witness now keeps the surviving sibling *)
 Example C08_example_former_F1_witness :
   plan (FnCall [FnCall [Mem 1; Feed 1; Mem 1]; FnCall [Mem 1; Delay 1]]) (FnCall [FnCall [Mem 1; Feed 1; Mem 1]])
